@@ -263,7 +263,23 @@ def main():
             run.consume("corpus:" + os.path.basename(cf), outp, rc, err, use_driver=driver_ok)
         for comp in cfg["components"]:
             outp = os.path.join(work, f"{comp}.ops")
-            rc, err = vlib.run_harness(exe, comp, seed, tier, outp, timeout=cfg.get("timeout", 3000))
+            extra = None
+            gen = cfg.get("pregen", {}).get(comp)
+            if gen:
+                # the Lean side generates the inputs (e.g. reference-written files) the real code is run on
+                inp = os.path.join(work, f"{comp}.in")
+                if not driver_ok:
+                    run.broken.append(f"pregen:{comp} (driver not built)")
+                    continue
+                with open(inp, "w") as f:
+                    g = subprocess.run([os.path.join(vlib.LEAN, ".lake", "build", "bin", "driver"), "--gen", gen,
+                                        str(seed), tier], stdout=f, stderr=subprocess.PIPE, text=True)
+                if g.returncode != 0:
+                    run.broken.append(f"pregen:{comp}")
+                    run.note("generator failed: " + g.stderr[-300:])
+                    continue
+                extra = ["--in", inp]
+            rc, err = vlib.run_harness(exe, comp, seed, tier, outp, extra=extra, timeout=cfg.get("timeout", 3000))
             run.consume(comp, outp, rc, err, use_driver=driver_ok)
 
     # 5. decide
